@@ -38,6 +38,7 @@ from __future__ import annotations
 import hashlib
 import json
 import logging
+import re as _re_mod
 import signal
 import time
 import warnings
@@ -486,6 +487,117 @@ def labelled_bnodes(text):
     return out
 
 
+_CHOICE_WELL = {gg.FIRST: 0, gg.REST: 1, gg.NIL: 2, gg.TYPE: 3, gg.RDFS + "Class": 4}
+_DIRECTIVE = _re_mod.compile(r"\s*(?:@prefix|@base|PREFIX|BASE)\s[^\n]*\n")
+
+
+def _encode_choice(g):
+    """The rdflib graph `g` for the model's `choice` line: blank nodes numbered in rdflib's order on BNodes, IRIs
+    i0..i4 = rdf:first, rdf:rest, rdf:nil, rdf:type, rdfs:Class and the others from 5 in order of appearance, with ORD
+    (place of every IRI number in rdflib's order on URIRefs).  -> (ord word, triple words, label -> number) or None
+    if the graph has a predicate that is not an IRI (outside the model's graphs)."""
+    triples = list(g)
+    if any(not isinstance(p_, URIRef) for _s, p_, _o in triples):
+        return None
+    bnodes = sorted({t for tr in triples for t in tr if isinstance(t, BNode)})
+    bmap = {str(b): i for i, b in enumerate(bnodes)}
+    iris = {URIRef(k): v for k, v in _CHOICE_WELL.items()}
+    lits = {}
+    toks = []
+    for tr in triples:
+        for t in tr:
+            if isinstance(t, BNode):
+                toks.append(f"b{bmap[str(t)]}")
+            elif isinstance(t, URIRef):
+                if t not in iris:
+                    iris[t] = len(iris)
+                toks.append(f"i{iris[t]}")
+            else:
+                k = (str(t), t.datatype, t.language)
+                if k not in lits:
+                    lits[k] = len(lits)
+                toks.append(f"l{lits[k]}")
+    place = {u: i for i, u in enumerate(sorted(iris))}
+    by_num = sorted(iris, key=lambda u: iris[u])
+    return ",".join(str(place[u]) for u in by_num), toks, bmap
+
+
+def top_statements(text, bmap):
+    """Independent mini-scanner: the subjects of the top-level statements of Turtle-family text, in the order written:
+    `a` for `[]`, `b<n>` for a labelled blank node, `i` for anything else (an IRI in any spelling).  A statement ends at
+    a `.` between white space outside brackets, strings and IRIs; the directives at the top are skipped."""
+    pos = 0
+    while True:
+        m = _DIRECTIVE.match(text, pos)
+        if not m:
+            break
+        pos = m.end()
+    out, i, n, depth, start = [], pos, len(text), 0, True
+    while i < n:
+        c = text[i]
+        if start:
+            if c.isspace():
+                i += 1
+                continue
+            if text.startswith("[]", i):
+                out.append("a")
+            elif text.startswith("_:", i):
+                j = i + 2
+                while j < n and (text[j].isalnum() or text[j] in "_-."):
+                    j += 1
+                lab = text[i + 2:j].rstrip(".")
+                out.append(f"b{bmap.get(lab, '?')}")
+            else:
+                out.append("i")
+            start = False
+        if c == "<":
+            j = text.find(">", i + 1)
+            i = n if j < 0 else j + 1
+        elif c == '"':
+            if text.startswith('"""', i):
+                i += 3
+                while i < n and not text.startswith('"""', i):
+                    i += 2 if text[i] == "\\" else 1
+                i += 3
+            else:
+                i += 1
+                while i < n and text[i] != '"':
+                    i += 2 if text[i] == "\\" else 1
+                i += 1
+        elif c in "[(":
+            depth += 1
+            i += 1
+        elif c in "])":
+            depth -= 1
+            i += 1
+        elif c == "." and depth == 0 and i > 0 and text[i - 1].isspace() and (i + 1 == n or text[i + 1].isspace()):
+            start = True
+            i += 1
+        else:
+            i += 1
+    return out
+
+
+def _choice_lines(g, kw):
+    """the recursive writer's own choice, per graph and per format: which blank nodes got no label, and the top-level
+    statements in the order written — read off the text, compared with the model's `choice`"""
+    enc = _encode_choice(g)
+    if enc is None:
+        return []
+    ordw, toks, bmap = enc
+    line = f"choice {ordw} {' '.join(toks)}"
+    lines = []
+    for fmt in ("turtle", "longturtle", "n3"):
+        try:
+            text = _with_timeout(lambda: g.serialize(format=fmt, **kw), FMT_TIMEOUT_S)
+        except Exception:
+            continue
+        hidden = sorted(bmap[b] for b in set(bmap) - labelled_bnodes(text))
+        hs = ",".join(f"b{b}" for b in hidden) or "-"
+        lines.append((line, f"H {hs} T {','.join(top_statements(text, bmap)) or '-'}"))
+    return lines
+
+
 def _struct_probe(spec):
     """-> [(model line, expected observation)]"""
     if not spec["triples"]:
@@ -530,6 +642,7 @@ def _struct_probe(spec):
         hidden = sorted(set(bmap) - labelled_bnodes(text), key=lambda b: bmap[b])
         hs = ",".join(f"b{bmap[b]}" for b in hidden) or "-"
         lines.append((f"pre {hs} {gtxt}", "ok"))
+    lines += _choice_lines(g, kw)
     return lines
 
 
@@ -801,6 +914,12 @@ def _count_io(stats, fmt, io):
         stats[f"io_pkw_{k}"] = stats.get(f"io_pkw_{k}", 0) + 1
 
 
+def _class_first(e):
+    """a blank-node statement written before an IRI statement: only rdfs:Class members get there"""
+    t = e.split(" T ")[1].split(",")
+    return any(x != "i" for x in t[:len(t) - t[::-1].index("i")]) if "i" in t else False
+
+
 def run_impl(case):
     spec = case["spec"]
     fmts = case.get("fmts") or FORMATS
@@ -856,6 +975,10 @@ def run_impl(case):
     stats["probe_isValidList_true"] = sum(1 for l, e in sprobe if l.startswith("vl ") and e == "true")
     stats["probe_pre"] = sum(1 for l, _e in sprobe if l.startswith("pre "))
     stats["probe_pre_hidden_nonempty"] = sum(1 for l, _e in sprobe if l.startswith("pre b"))
+    stats["probe_choice"] = sum(1 for l, _e in sprobe if l.startswith("choice "))
+    stats["probe_choice_hidden"] = sum(1 for l, e in sprobe if l.startswith("choice ") and not e.startswith("H - "))
+    stats["probe_choice_anon_top"] = sum(1 for l, e in sprobe if l.startswith("choice ") and ("a" in e.split(" T ")[1].split(",")))
+    stats["probe_choice_class_first"] = sum(1 for l, e in sprobe if l.startswith("choice ") and _class_first(e))
     stats["probe_shorthand_tokens"] = sum(1 for l, _e, _p in probe if l.startswith("relex "))
     key = hashlib.sha1(json.dumps([sorted(map(json.dumps, spec["triples"])), spec.get("prefixes"), spec.get("bind"),
                                    spec.get("base")], sort_keys=True).encode()).hexdigest()
